@@ -204,6 +204,15 @@ class Bomb:
 
 # ---- C18: context targets
 def t_ctx(x=0, tag=None, base=0, *a, **k):
+    if x == 'stubborn':
+        # a worker that cannot be stopped by anything but SIGKILL: ignores SIGTERM, swallows every exception
+        import signal
+        signal.signal(signal.SIGTERM, signal.SIG_IGN)
+        while True:
+            try:
+                time.sleep(0.01)
+            except BaseException:  # noqa
+                pass
     return (tag, base + x)
 
 
